@@ -1,12 +1,185 @@
-//! Extension of the `crdt` engine: commands `crdt.x.*` operate on the replicas of `CrdtSession`.
-use super::crdt::CrdtSession;
-use crate::{rng::Rng, Out, Session};
-use automerge::TextEncoding;
+//! Extension of the `crdt` engine (commands `crdt.x.*` on the replicas of `CrdtSession`):
+//! isolation (C29), object-id validity across replicas (C30), string migration (C40).
+use super::crdt::{self, local_tx, parse_exid, show_doc, show_exid, CrdtSession};
+use super::{hx, unhx};
+use crate::{exec_line, rng::Rng, Out, Session};
+use automerge::{transaction::Transactable, ActorId, AutoCommit, ChangeHash, ObjType, ReadDoc, TextEncoding, Value, ROOT};
 use std::collections::BTreeMap;
 
-pub fn exec(_s: &mut CrdtSession, _toks: &[&str], _enc: TextEncoding) -> Vec<String> {
-    vec!["unknown-cmd".into()]
+fn parse_hashes(s: &str) -> Vec<ChangeHash> {
+    if s == "-" { return vec![]; }
+    s.split(',').map(|h| ChangeHash::try_from(unhx(h).as_slice()).unwrap()).collect()
 }
 
-#[allow(dead_code)]
-pub fn generate(_r: &mut Rng, _opts: &BTreeMap<String, String>, _sess: &mut Session, _out: &mut Out) {}
+pub fn exec(s: &mut CrdtSession, toks: &[&str], enc: TextEncoding) -> Vec<String> {
+    match toks[0] {
+        // crdt.x.isolate r <heads>
+        "crdt.x.isolate" => {
+            let hs = parse_hashes(toks[2]);
+            let d = s.replicas.get_mut(toks[1]).unwrap();
+            // C29 direct oracle: reads inside isolate(heads) = the state at those heads
+            let want = show_doc(d, Some(&hs), enc);
+            d.isolate(&hs);
+            let got = show_doc(d, None, enc);
+            let mut res = vec!["ok".to_string()];
+            if got != want { res.push("! C29 sig=isolated-read reads after isolate(heads) differ from reads at those heads".to_string()); }
+            s.iso_snap.insert(toks[1].to_string(), hs);
+            res
+        }
+        // crdt.x.integrate r
+        "crdt.x.integrate" => {
+            let d = s.replicas.get_mut(toks[1]).unwrap();
+            d.integrate();
+            s.iso_snap.remove(toks[1]);
+            // C29 direct oracle: after integrate the document equals the merge of everything it holds:
+            // a fresh document given all its changes shows the same state
+            let mut res = vec!["ok".to_string()];
+            let cs = d.get_changes(&[]);
+            let mut f = AutoCommit::new_with_encoding(enc).with_actor(ActorId::from(vec![0xfe, 0xfe]));
+            if f.apply_changes(cs).is_ok() {
+                if show_doc(&f, None, enc) != show_doc(d, None, enc) { res.push("! C29 sig=integrate-not-merge after integrate the document differs from the merge of its changes".to_string()); }
+            }
+            res
+        }
+        // crdt.x.useid r <objid> : C30 — an object id from another replica / time; read + edit
+        // output: ok <type> <length> | err
+        "crdt.x.useid" => {
+            let d = s.replicas.get_mut(toks[1]).unwrap();
+            let id = parse_exid(toks[2]);
+            match d.object_type(&id) {
+                Ok(t) => {
+                    let len = d.length(&id);
+                    let st = crdt::show_obj(d, &id, t, None, enc, 0);
+                    vec![format!("ok {} {}", len, st)]
+                }
+                Err(_) => {
+                    // must behave as empty everywhere else too
+                    let mut res = vec!["err".to_string()];
+                    if d.length(&id) != 0 || d.keys(&id).count() != 0 || d.text(&id).map(|t| !t.is_empty()).unwrap_or(false) {
+                        res.push("! C30 sig=foreign-id-data an object id the replica does not contain returned data".to_string());
+                    }
+                    res
+                }
+            }
+        }
+        // crdt.x.migrate r r2 : r2 := load(save(r)) with StringMigration::ConvertToText
+        "crdt.x.migrate" => {
+            let d = s.replicas.get_mut(toks[1]).unwrap();
+            let bytes = d.save();
+            let opts = automerge::LoadOptions::new().text_encoding(enc).migrate_strings(automerge::StringMigration::ConvertToText);
+            match AutoCommit::load_with_options(&bytes, opts) {
+                Err(_) => vec!["err".to_string()],
+                Ok(mut m) => {
+                    let mut res = vec![];
+                    let added = m.get_changes(&[]).len() - d.get_changes(&[]).len();
+                    // the migration change is made by the loaded document's (random) actor: render it as 4d494752
+                    let rnd = hex::encode(m.get_actor().to_bytes());
+                    let st = show_doc(&m, None, enc).replace(&format!("@{}", rnd), "@4d494752");
+                    res.push(format!("ok added={} {}", added, st));
+                    // C40 direct oracles
+                    let mut had_visible_string = false;
+                    migrate_walk(d, &m, &ROOT, &ROOT, ObjType::Map, &mut res, &mut had_visible_string, 0);
+                    if !had_visible_string && added != 0 {
+                        res.push("! C40 sig=unreachable-object-string no string is visible from the root but the migration added a change".to_string());
+                    }
+                    s.replicas.insert(toks[2].to_string(), m);
+                    res
+                }
+            }
+        }
+        _ => vec!["unknown-cmd".into()],
+    }
+}
+
+/// compare the reachable tree before / after migration
+fn migrate_walk(b: &AutoCommit, a: &AutoCommit, ob: &automerge::ObjId, oa: &automerge::ObjId, ty: ObjType, res: &mut Vec<String>, had: &mut bool, depth: usize) {
+    if depth > 8 { return; }
+    let props: Vec<automerge::Prop> = match ty {
+        ObjType::Map | ObjType::Table => b.keys(ob).map(automerge::Prop::Map).collect(),
+        ObjType::List => (0..b.length(ob)).map(automerge::Prop::Seq).collect(),
+        ObjType::Text => return,
+    };
+    if let ObjType::Map | ObjType::Table = ty {
+        let ka: Vec<String> = a.keys(oa).collect();
+        let kb: Vec<String> = b.keys(ob).collect();
+        if ka != kb { res.push("! C40 sig=keys-changed migration changed the key set of a map".to_string()); return; }
+    } else if a.length(oa) != b.length(ob) { res.push("! C40 sig=length-changed migration changed a list length".to_string()); return; }
+    for p in props {
+        let vb = b.get_all(ob, p.clone()).unwrap_or_default();
+        let va = a.get_all(oa, p.clone()).unwrap_or_default();
+        let strings: Vec<String> = vb.iter().filter_map(|(v, _)| match v { Value::Scalar(s) => match s.as_ref() { automerge::ScalarValue::Str(x) => Some(x.to_string()), _ => None }, _ => None }).collect();
+        if !strings.is_empty() && ty != ObjType::Table {
+            *had = true;
+            // exactly one value: a text object whose content is the highest-id string
+            let ok = va.len() == 1 && matches!(va[0].0, Value::Object(ObjType::Text)) && a.text(&va[0].1).ok().as_deref() == strings.last().map(|x| x.as_str());
+            if !ok { res.push(format!("! C40 sig=string-not-converted {:?} had visible strings {:?} but does not hold a text object with the highest-id string", p, strings)); }
+        } else {
+            // unchanged values, recursively
+            let sb: Vec<String> = vb.iter().map(|(v, id)| format!("{}:{}", show_exid(id), match v { Value::Scalar(s) => crdt::show_scalar(s), Value::Object(t) => format!("{:?}", t) })).collect();
+            let sa: Vec<String> = va.iter().map(|(v, id)| format!("{}:{}", show_exid(id), match v { Value::Scalar(s) => crdt::show_scalar(s), Value::Object(t) => format!("{:?}", t) })).collect();
+            if sa != sb { res.push(format!("! C40 sig=other-values-changed {:?} has no visible string but its values changed", p)); continue; }
+            for ((v, idb), (_, ida)) in vb.iter().zip(va.iter()) {
+                if let Value::Object(t) = v { migrate_walk(b, a, idb, ida, *t, res, had, depth + 1); }
+            }
+        }
+    }
+    // nothing visible is a string scalar any more
+    for p in match ty { ObjType::Map | ObjType::Table => a.keys(oa).map(automerge::Prop::Map).collect::<Vec<_>>(), _ => (0..a.length(oa)).map(automerge::Prop::Seq).collect() } {
+        if ty == ObjType::Table { continue; }
+        for (v, _) in a.get_all(oa, p.clone()).unwrap_or_default() {
+            if let Value::Scalar(s) = v { if matches!(s.as_ref(), automerge::ScalarValue::Str(_)) { res.push(format!("! C40 sig=string-left visible string scalar left at {:?}", p)); } }
+        }
+    }
+}
+
+/// histories with isolation: edit, isolate at a past head set, edit in isolation (several commits),
+/// read, integrate, converge
+pub fn generate(r: &mut Rng, _opts: &BTreeMap<String, String>, sess: &mut Session, out: &mut Out) {
+    let enc = ["cp", "utf8", "utf16"][r.below(3) as usize];
+    exec_line(sess, &format!("crdt.new r0 {} {}", enc, hex::encode(r.bytes(2))), out);
+    let mut known = vec![("_".to_string(), ObjType::Map)];
+    let mut all: Vec<String> = vec![];
+    for _ in 0..r.range(2, 6) { local_tx(r, sess, out, "r0", &mut known, &mut all); }
+    // a second replica with concurrent work, merged in
+    exec_line(sess, &format!("crdt.fork r0 r1 {}", hex::encode(r.bytes(2))), out);
+    for _ in 0..r.range(1, 4) { local_tx(r, sess, out, "r1", &mut known, &mut all); }
+    for _ in 0..r.range(0, 3) { local_tx(r, sess, out, "r0", &mut known, &mut all); }
+    if !all.is_empty() { exec_line(sess, &format!("crdt.apply r0 {}", all.join(",")), out); }
+    exec_line(sess, "crdt.state r0", out);
+    let rounds = r.range(1, 3);
+    for _ in 0..rounds {
+        let own: Vec<String> = sess.crdt.replicas.get_mut("r0").unwrap().get_changes(&[]).iter().map(|c| hex::encode(c.hash().0)).collect();
+        if own.is_empty() { return; }
+        let h = own[r.below(own.len() as u64) as usize].clone();
+        exec_line(sess, &format!("crdt.x.isolate r0 {}", h), out);
+        out.count("isolations");
+        exec_line(sess, "crdt.state r0", out);
+        for _ in 0..r.range(1, 3) {
+            local_tx(r, sess, out, "r0", &mut known, &mut all);
+            exec_line(sess, "crdt.state r0", out);
+        }
+        // the other replica keeps working and its changes arrive while isolated
+        if r.chance(1, 2) {
+            local_tx(r, sess, out, "r1", &mut known, &mut all);
+            if let Some(last) = all.last().cloned() { exec_line(sess, &format!("crdt.apply r0 {}", last), out); }
+            exec_line(sess, "crdt.state r0", out);
+        }
+        exec_line(sess, "crdt.x.integrate r0", out);
+        exec_line(sess, "crdt.state r0", out);
+    }
+    // C30: ids of every object known anywhere, used on both replicas
+    for (id, _) in known.clone().iter().take(8) {
+        exec_line(sess, &format!("crdt.x.useid r0 {}", id), out);
+        exec_line(sess, &format!("crdt.x.useid r1 {}", id), out);
+    }
+    if !all.is_empty() {
+        exec_line(sess, &format!("crdt.apply r1 {}", all.join(",")), out);
+        exec_line(sess, "crdt.state r1", out);
+        exec_line(sess, "crdt.state r0", out);
+    }
+    // C40: string migration of the converged document and of an intermediate one
+    exec_line(sess, "crdt.x.migrate r0 m0", out);
+    exec_line(sess, "crdt.x.migrate r1 m1", out);
+    out.count("migrations");
+    let _ = (hx(&[]), show_exid(&ROOT), Value::int(0));
+}
